@@ -441,6 +441,12 @@ def value_on_path(body, path, local=0, upto=None):
                     pl = rv["use"].get("move") or rv["use"].get("copy")
                     if pl is not None and not pl["proj"]:
                         return val(pl["l"], i - 1, hops + 1)
+                    # payload of a value built on this path: `(x as V).0` with x = V(..)
+                    if pl is not None and len(pl["proj"]) == 2 and isinstance(pl["proj"][0], dict) and "downcast" in pl["proj"][0] \
+                            and isinstance(pl["proj"][1], dict) and pl["proj"][1].get("f") == 0:
+                        base = val(pl["l"], i - 1, hops + 1)
+                        if isinstance(base, tuple) and base[0] == "agg" and base[1] == "adt" and base[3] == pl["proj"][0]["downcast"] and base[5]:
+                            return base[5][0]
                 if "un" in rv and rv["un"] == "Not":
                     pl = rv["a"].get("move") or rv["a"].get("copy")
                     if pl is not None and not pl["proj"]:
